@@ -132,6 +132,7 @@ Print Assumptions C08_xff_append.
 
 (* the header names of the model are the Go constants, and canonical *)
 From Coq Require Import Ascii String.
+From Oxy Require Gen.Consts.
 Local Open Scope string_scope.
 Definition bs (s : string) : bytes := map (fun a => Z.of_N (N_of_ascii a)) (list_ascii_of_string s).
 
@@ -143,6 +144,16 @@ Example C08_names :
   map canon_key (x_headers ++ hop_headers ++ write_excluded) = (x_headers ++ hop_headers ++ write_excluded)%list /\
   [s_trailers; s_http; s_https; s_wss; s_80; s_443; s_comma_space] = map bs ["trailers"; "http"; "https"; "wss"; "80"; "443"; ", "]%list.
 Proof. vm_compute. repeat split. Qed.
+
+(* the forwarding-header list and names of the model are those forward/headers.go has now (Gen/Consts.v is regenerated
+   from the source on every run) *)
+Theorem C08_constants_match_source :
+  x_headers = map bs Consts.XHeaders /\
+  [XForwardedProto; XForwardedFor; XForwardedHost; XForwardedPort; XForwardedServer; XRealIp; Connection] =
+    map bs [Consts.hdr_XForwardedProto; Consts.hdr_XForwardedFor; Consts.hdr_XForwardedHost; Consts.hdr_XForwardedPort;
+            Consts.hdr_XForwardedServer; Consts.hdr_XRealIP; Consts.hdr_Connection]%list.
+Proof. vm_compute. split; reflexivity. Qed.
+Print Assumptions C08_constants_match_source.
 
 (* non-vacuity: a TLS request from an IPv6 peer with zone, whose client names a forwarding header, an ordinary header and
    keep-alive in Connection, supplies X-Forwarded-For and X-Real-Ip upstream, and asks for trailers *)
